@@ -201,6 +201,20 @@ def execute(op, mode='stream'):
         with open('op_input2.pdb', 'rt', encoding='utf-8') as fh:
             mol = propka.run.single('x.pdb', optargs=tuple(opts), stream=fh, write_pka=False)
         mol._pka_text = pk.pka_text(mol)
+    elif mode == 'used-stream':
+        # a text stream the caller has already read from (two lines consumed; a StringIO filled with write() and left at its end)
+        st = io.StringIO()
+        st.write(text)
+        mol = propka.run.single('x.pdb', optargs=tuple(opts), stream=st, write_pka=False)
+        mol._pka_text = pk.pka_text(mol)
+        st2 = io.StringIO(text)
+        st2.readline()
+        st2.readline()
+        mol2 = propka.run.single('x.pdb', optargs=tuple(opts), stream=st2, write_pka=False)
+        if pk.pka_text(mol2) != mol._pka_text:
+            mol._pka_text = pk.pka_text(mol2)
+            mol = mol2
+            mol._pka_text = pk.pka_text(mol2)
     rec = pk.record(mol, text=mol._pka_text)
     if op.get('tune_after'):
         # what a caller may do with the objects a finished calculation handed back
@@ -504,6 +518,8 @@ def plan(tier, seed):
         if 'main' not in op and not op.get('via_zip'):
             envs.append(dict(kind='env', op=i, hashseed=1, cwd='nested', mode='path'))
             envs.append(dict(kind='env', op=i, hashseed=2, cwd='flat', mode='textfile'))
+            if i < 4:
+                envs.append(dict(kind='env', op=i, hashseed=0, cwd='flat', mode='used-stream'))
             if 'cfg' not in op and 'cfg_edit' not in op:
                 envs.append(dict(kind='env', op=i, hashseed=0, cwd='decoy-cfg', mode='stream' if i % 2 else 'path'))
         for lg in (('propka-info', 'disabled') if tier == 'quick' else ('propka-info', 'propka-debug', 'root-info', 'disabled')):
@@ -514,7 +530,7 @@ def plan(tier, seed):
                       'globals/class attributes/logger configuration/cache sizes, until closure, plus every ordered pair of operations whatever the state hash says; schedules: all k! iteration orders of the coupled '
                       'groups of %d inputs (k <= 5; clusters default and -d, covalently coupled ligand/N-terminal systems under 5 '
                       'parameter toggles); environment: every operation in fresh interpreters with hash seeds %s, nested cwd + path input, '
-                      'text-file stream, host logging configured at INFO/DEBUG or disabled. non-trivial = distinct (history, operation) transitions + inputs with a coupled system + '
+                      'text-file stream, a stream the caller has already read from, host logging configured at INFO/DEBUG or disabled. non-trivial = distinct (history, operation) transitions + inputs with a coupled system + '
                       'environment runs') % (len(ops), [o['name'] for o in ops], len(orders), '0-3' if tier == 'thorough' else '0,3'),
                 bounds=dict(operations=len(ops), max_coupled_groups_permuted=5), samples=[dict(history=['unknown-element', 'tripeptide-quiet'], op='ligand-cutout')])
 
